@@ -1,7 +1,960 @@
-//! C20: correspondence + oracle runs (sub-commands `c20` / `c20-*`).
+//! C20: name resolution on the real `DnsServer` / `DnsClient` over the real stack
+//! (SocketAPI, Udp, Ipv4, Arp, Pci, Network), one server machine and 1..N client machines.
+//!
+//! A case (all of it in op lines, so a replay file re-creates it):
+//!   `cfg arp=<0|1> conns=<n> dseed=<s> dmax=<us> lat=<us> rogue=<kind>`
+//!   `rec <hexname> <a.b.c.d>`          a record registered with `DnsServer::add_mapping`
+//!   `clients <n>`
+//!   `plan <client> <at_us> <hexname>`  client calls `get_host_by_name(name)` at that virtual time
+//! then either `expect-died` -> `died <panic site>` when the simulation process died (the model
+//! names the panic the planned lookups lead to), or, in the order observed on the real run
+//! (event log of lookups and frames):
+//!   `lookup <c> <hexname> <id>`        -> `hit <addr>` | `miss <port> <query datagram hex>`
+//!   `deliver q <c> <port>`             -> `reply <reply datagram hex>`      (query reaches the server)
+//!   `deliver r <c> <port>`             -> `ok <addr> id=<id> q=<hex> an=<hex>` (client consumed its reply)
+//!   `drop q <c> <port>`                -> `dropped`   (the query reached the server machine and was
+//!                                         discarded there: no reply, the lookup hangs; F-C20-3)
+//!   `end`                              -> per client: sorted cache, number of query datagrams
+//! The Lean driver replays the same lines through `Elvis.Dns.step`.
+//!
+//! Native oracle (the property, independent of the code): every lookup of a registered,
+//! delimiter-free name completes with exactly the registered address; the reply consumed on a
+//! socket echoes id and name of the query sent from that socket; after a client's first success
+//! for a name, later lookups of it return the same address with nothing sent by that client.
+use crate::scaffold::*;
+use elvis_core::{
+    machine::Machine,
+    message::Message,
+    network::VerifFramePlan,
+    protocol::{DemuxError, StartError},
+    protocols::{
+        dns::{dns_client::DnsClient, dns_server::DnsServer},
+        ipv4::Ipv4Address,
+        Arp, Endpoint, SocketAPI, Udp,
+    },
+    Control, Protocol, Session, Shutdown,
+};
 use hcommon::*;
+use std::collections::BTreeMap;
+use std::sync::atomic::{AtomicUsize, Ordering};
+use std::sync::{Arc, Mutex};
+use std::time::Duration;
+use tokio::sync::{Barrier, Notify};
+
+const RULE: &str = "cases: 1..6 registered records (printable ASCII without space, some multi-byte UTF-8, length 1..60, boundary lengths 24/25, arbitrary addresses, sometimes the server's own stand-in names) + 1..6 client machines issuing 1..8 lookups each (repeated, concurrent, same instant) over ARP or static MACs, every frame delayed by a seeded planner (0..dmax us; no loss); paused-clock current_thread runtime, one worker process per batch; a few cases look up an unregistered or delimiter-carrying name (outside the property; compared with the model only) or talk to a rogue responder (wrong id / wrong name); non-trivial = >= 2 lookups that missed, >= 1 cache hit and >= 2 clients or a reordered reply; distinct = hash of the op lines";
+
+const SERVER_ADDR: [u8; 4] = [1, 3, 3, 7];
+/// records `DnsServer::start` inserts itself (checked against the source by tools/extract.py ->
+/// Generated/DnsCert.lean, which the model uses; here only to keep generated names apart)
+const BUILTIN: [(&str, [u8; 4]); 2] = [("testserver.com", [123, 45, 67, 15]), ("google.com", [123, 45, 67, 60])];
+
+#[derive(Clone, Debug, PartialEq)]
+struct Case {
+    arp: bool,
+    conns: u16,
+    dseed: u64,
+    dmax: u64,
+    lat: u64,
+    /// none | id | name | addr : a rogue responder instead of the real server
+    rogue: String,
+    records: Vec<(Vec<u8>, [u8; 4])>,
+    clients: usize,
+    /// (client, at_us, name)
+    plan: Vec<(usize, u64, Vec<u8>)>,
+}
+
+fn fmt_ip(a: [u8; 4]) -> String {
+    format!("{}.{}.{}.{}", a[0], a[1], a[2], a[3])
+}
+fn parse_ip(s: &str) -> Option<[u8; 4]> {
+    parse_addr(s).map(|x| x.to_be_bytes())
+}
+
+impl Case {
+    fn to_lines(&self) -> Vec<String> {
+        let mut l = vec![format!(
+            "cfg arp={} conns={} dseed={} dmax={} lat={} rogue={}",
+            self.arp as u8, self.conns, self.dseed, self.dmax, self.lat, self.rogue
+        )];
+        for (n, a) in &self.records {
+            l.push(format!("rec {} {}", hex(n), fmt_ip(*a)));
+        }
+        l.push(format!("clients {}", self.clients));
+        for (c, t, n) in &self.plan {
+            l.push(format!("plan {} {} {}", c, t, hex(n)));
+        }
+        l
+    }
+    fn from_lines<'a>(lines: impl IntoIterator<Item = &'a str>) -> Option<Case> {
+        let mut c = Case { arp: true, conns: u16::MAX, dseed: 1, dmax: 0, lat: 1000, rogue: "none".into(), records: vec![], clients: 0, plan: vec![] };
+        let mut seen_cfg = false;
+        for line in lines {
+            let w: Vec<&str> = line.split_whitespace().collect();
+            match w.as_slice() {
+                ["cfg", rest @ ..] => {
+                    seen_cfg = true;
+                    for kv in rest {
+                        let (k, v) = kv.split_once('=')?;
+                        match k {
+                            "arp" => c.arp = v == "1",
+                            "conns" => c.conns = v.parse().ok()?,
+                            "dseed" => c.dseed = v.parse().ok()?,
+                            "dmax" => c.dmax = v.parse().ok()?,
+                            "lat" => c.lat = v.parse().ok()?,
+                            "rogue" => c.rogue = v.to_string(),
+                            _ => {}
+                        }
+                    }
+                }
+                ["rec", n, a] => c.records.push((unhex(n), parse_ip(a)?)),
+                ["clients", n] => c.clients = n.parse().ok()?,
+                ["plan", cl, t, n] => c.plan.push((cl.parse().ok()?, t.parse().ok()?, unhex(n))),
+                _ => {}
+            }
+        }
+        if !seen_cfg || c.clients == 0 {
+            return None;
+        }
+        Some(c)
+    }
+    /// what the authoritative server is configured with, per name (last registration wins)
+    fn registered(&self) -> BTreeMap<Vec<u8>, [u8; 4]> {
+        let mut m = BTreeMap::new();
+        for (n, a) in &self.records {
+            m.insert(n.clone(), *a);
+        }
+        for (n, a) in BUILTIN.iter() {
+            m.entry(n.as_bytes().to_vec()).or_insert(*a);
+        }
+        m
+    }
+}
+
+// ------------------------------------------------------------------------------------------
+// harness applications
+// ------------------------------------------------------------------------------------------
+
+struct DoneCtr {
+    n: AtomicUsize,
+    total: usize,
+    notify: Notify,
+}
+
+/// Client application: calls the real `DnsClient::get_host_by_name` at the planned instants
+/// (one task per lookup, so lookups of one machine overlap).
+struct Resolver {
+    client: usize,
+    lookups: Vec<(usize, u64, String)>, // (plan index, at_us, name)
+    log: Arc<Log>,
+    done: Arc<DoneCtr>,
+}
+
+#[async_trait::async_trait]
+impl Protocol for Resolver {
+    async fn start(&self, _s: Shutdown, initialized: Arc<Barrier>, machine: Arc<Machine>) -> Result<(), StartError> {
+        initialized.wait().await;
+        let t0 = tokio::time::Instant::now();
+        for (idx, at, name) in self.lookups.iter().cloned() {
+            let (log, done, machine, client) = (self.log.clone(), self.done.clone(), machine.clone(), self.client);
+            tokio::spawn(async move {
+                tokio::time::sleep_until(t0 + Duration::from_micros(at)).await;
+                let dns = machine.protocol::<DnsClient>().expect("client machine has DnsClient");
+                let pre = dns.get_mapping(&name);
+                log.push(Ev::Note(format!("L start {} {} {}", client, idx, match pre { Ok(a) => fmt_ip(a.to_bytes()), Err(_) => "miss".into() })));
+                let r = dns.get_host_by_name(name.clone(), machine.clone()).await;
+                log.push(Ev::Note(format!("L done {} {} {}", client, idx, match r { Ok(a) => fmt_ip(a.to_bytes()), Err(_) => "err".into() })));
+                if done.n.fetch_add(1, Ordering::SeqCst) + 1 == done.total {
+                    done.notify.notify_one();
+                }
+            });
+        }
+        Ok(())
+    }
+    fn demux(&self, _m: Message, _c: Arc<dyn Session>, _k: Control, _ma: Arc<Machine>) -> Result<(), DemuxError> {
+        Ok(())
+    }
+}
+
+/// A responder that is NOT the real server: answers every datagram on port 53 with the real
+/// server's reply format but a wrong id, a wrong answer name or another address.  Outside the
+/// property (which is about the authoritative server); used to tie the client model `onReply`.
+struct Rogue {
+    kind: String,
+}
+
+#[async_trait::async_trait]
+impl Protocol for Rogue {
+    async fn start(&self, _s: Shutdown, initialized: Arc<Barrier>, machine: Arc<Machine>) -> Result<(), StartError> {
+        let udp = machine.protocol::<Udp>().expect("udp");
+        if let Some(arp) = machine.protocol::<Arp>() {
+            arp.listen(Ipv4Address::new(SERVER_ADDR));
+        }
+        udp.listen(self.id(), Endpoint::new(Ipv4Address::new(SERVER_ADDR), 53), machine.clone()).expect("rogue listen");
+        initialized.wait().await;
+        Ok(())
+    }
+    fn demux(&self, m: Message, caller: Arc<dyn Session>, _k: Control, machine: Arc<Machine>) -> Result<(), DemuxError> {
+        let q = m.to_vec();
+        if let Some(reply) = rogue_reply(&self.kind, &q) {
+            let _ = caller.send(Message::new(reply), machine);
+        }
+        Ok(())
+    }
+}
+
+/// split a query datagram: (id, qname); `None` if it does not even have a header and a name
+fn split_query(q: &[u8]) -> Option<(u16, Vec<u8>)> {
+    if q.len() < 13 {
+        return None;
+    }
+    let id = u16::from_be_bytes([q[0], q[1]]);
+    let end = q[12..].iter().position(|b| *b == b' ')?;
+    Some((id, q[12..12 + end].to_vec()))
+}
+
+fn reply_bytes(id: u16, qname: &[u8], aname: &[u8], addr: [u8; 4]) -> Vec<u8> {
+    let mut v = vec![];
+    v.extend_from_slice(&id.to_be_bytes());
+    v.extend_from_slice(&[0x80, 0, 0, 0, 0, 0, 0, 0, 0, 0]);
+    v.extend_from_slice(qname);
+    v.extend_from_slice(&[b' ', 0, 1, 0, 1]);
+    v.extend_from_slice(aname);
+    v.extend_from_slice(&[b' ', 0, 1, 0, 1, 0, 0, 0, 0, 0, 4]);
+    v.extend_from_slice(&addr);
+    v
+}
+
+fn rogue_reply(kind: &str, q: &[u8]) -> Option<Vec<u8>> {
+    let (id, name) = split_query(q)?;
+    Some(match kind {
+        "id" => reply_bytes(id.wrapping_add(1), &name, &name, [6, 6, 6, 6]),
+        "qname" => reply_bytes(id, b"other.example", &name, [6, 6, 6, 6]),
+        "name" => reply_bytes(id, &name, b"other.example", [6, 6, 6, 6]),
+        "short" => q[..q.len().min(20)].to_vec(),
+        _ => reply_bytes(id, &name, &name, [6, 6, 6, 6]),
+    })
+}
+
+// ------------------------------------------------------------------------------------------
+// running one case (inside a worker process)
+// ------------------------------------------------------------------------------------------
+
+fn client_ip(c: usize) -> [u8; 4] {
+    [10, 0, (c / 200) as u8, (c % 200 + 1) as u8]
+}
+
+enum RunEnd {
+    AllDone,
+    Returned(String),
+    Stuck,
+}
+
+struct Observed {
+    end: RunEnd,
+    events: Vec<Event>,
+    caches: Vec<Vec<(Vec<u8>, Option<[u8; 4]>)>>,
+}
+
+fn run_real(case: &Case) -> Observed {
+    let n = case.clients;
+    let mut machines = vec![];
+    // machine 0 = server (MAC 0), machine c+1 = client c (MAC c+1)
+    let server_routes = if case.arp {
+        vec![Route { addr: 0, mask_len: 0, slot: 0, mac: None }]
+    } else {
+        (0..n).map(|c| Route { addr: u32::from_be_bytes(client_ip(c)), mask_len: 32, slot: 0, mac: Some(c as u64 + 1) }).collect()
+    };
+    machines.push(MachineSpec { nets: vec![0], arp: case.arp, udp: true, tcp: true, sockets: false, routes: server_routes, apps: vec![] });
+    for _ in 0..n {
+        machines.push(MachineSpec {
+            nets: vec![0],
+            arp: case.arp,
+            udp: true,
+            tcp: true,
+            sockets: false,
+            routes: vec![Route { addr: 0, mask_len: 0, slot: 0, mac: if case.arp { None } else { Some(0) } }],
+            apps: vec![],
+        });
+    }
+    let sc = Scenario { nets: vec![NetSpec { mtu: None, lat_us: (case.lat, 0), thr: (0, 0) }], machines, mode: RtMode::Paused, duration_us: 0 };
+    let rng = Arc::new(Mutex::new(Rng::new(case.dseed)));
+    let dmax = case.dmax;
+    let planner: Option<Planner> = if dmax == 0 {
+        None
+    } else {
+        Some(Arc::new(move |_w: &WireSend| {
+            let mut r = rng.lock().unwrap();
+            let d = match r.below(4) {
+                0 => 0,
+                1 => r.below(dmax / 10 + 1),
+                _ => r.below(dmax + 1),
+            };
+            if d == 0 {
+                VerifFramePlan::Deliver
+            } else {
+                VerifFramePlan::Delay(Duration::from_micros(d))
+            }
+        }))
+    };
+    let done = Arc::new(DoneCtr { n: AtomicUsize::new(0), total: case.plan.len(), notify: Notify::new() });
+    let names: Vec<String> = case.plan.iter().map(|p| String::from_utf8(p.2.clone()).expect("planned names are UTF-8")).collect();
+    let extra = |idx: usize, m: Machine, log: &Arc<Log>| -> Machine {
+        if idx == 0 {
+            if case.rogue != "none" {
+                return m.with(Rogue { kind: case.rogue.clone() });
+            }
+            let srv = DnsServer::new(case.conns);
+            for (nm, a) in &case.records {
+                srv.add_mapping(String::from_utf8(nm.clone()).expect("record names are UTF-8"), Ipv4Address::new(*a));
+            }
+            m.with(SocketAPI::new(Some(Ipv4Address::new(SERVER_ADDR)))).with(srv)
+        } else {
+            let c = idx - 1;
+            let lookups = case.plan.iter().enumerate().filter(|(_, p)| p.0 == c).map(|(i, p)| (i, p.1, names[i].clone())).collect();
+            m.with(SocketAPI::new(Some(Ipv4Address::new(client_ip(c)))))
+                .with(DnsClient::new())
+                .with(Resolver { client: c, lookups, log: log.clone(), done: done.clone() })
+        }
+    };
+    let built = build(&sc, planner, &extra);
+    let log = built.log.clone();
+    let ms = built.machines.clone();
+    let done2 = done.clone();
+    let total = case.plan.len();
+    let end = block_on_mode(RtMode::Paused, async move {
+        log.start_clock();
+        tokio::select! {
+            st = elvis_core::run_internet(&ms, None) => RunEnd::Returned(fmt_status(&st)),
+            _ = async {
+                if total > 0 { done2.notify.notified().await; }
+                // grace period: anything still sent after the last completion shows up in the log
+                tokio::time::sleep(Duration::from_millis(3000)).await;
+            } => RunEnd::AllDone,
+            _ = tokio::time::sleep(Duration::from_secs(60)) => RunEnd::Stuck,
+        }
+    });
+    for nw in &built.networks {
+        nw.verif_set_hook(None);
+    }
+    // final cache contents, through the public API, for every name of the case
+    let mut universe: Vec<Vec<u8>> = case.records.iter().map(|r| r.0.clone()).chain(case.plan.iter().map(|p| p.2.clone())).collect();
+    universe.extend(BUILTIN.iter().map(|b| b.0.as_bytes().to_vec()));
+    universe.push(b"other.example".to_vec());
+    universe.sort();
+    universe.dedup();
+    let mut caches = vec![];
+    for c in 0..n {
+        let dns = built.machines[c + 1].protocol::<DnsClient>().expect("DnsClient");
+        caches.push(
+            universe
+                .iter()
+                .map(|nm| (nm.clone(), String::from_utf8(nm.clone()).ok().and_then(|s| dns.get_mapping(&s).ok()).map(|a| a.to_bytes())))
+                .collect(),
+        );
+    }
+    Observed { end, events: built.log.snapshot(), caches }
+}
+
+/// an IPv4/UDP frame as the hook shows it: (src ip, src port, dst ip, dst port, payload)
+fn parse_udp(bytes: &[u8]) -> Option<([u8; 4], u16, [u8; 4], u16, Vec<u8>)> {
+    if bytes.len() < 28 || bytes[0] != 0x45 || bytes[9] != 17 {
+        return None;
+    }
+    // fragments are not produced in these scenarios (MTU 1500, datagrams < 300 bytes)
+    let src = [bytes[12], bytes[13], bytes[14], bytes[15]];
+    let dst = [bytes[16], bytes[17], bytes[18], bytes[19]];
+    let sp = u16::from_be_bytes([bytes[20], bytes[21]]);
+    let dp = u16::from_be_bytes([bytes[22], bytes[23]]);
+    Some((src, sp, dst, dp, bytes[28..].to_vec()))
+}
+
+fn client_of_ip(ip: [u8; 4], n: usize) -> Option<usize> {
+    (0..n).find(|c| client_ip(*c) == ip)
+}
+
+/// parsed reply datagram: (id, qname, answer name, rdata)
+fn split_reply(r: &[u8]) -> Option<(u16, Vec<u8>, Vec<u8>, Vec<u8>)> {
+    let (id, qn) = split_query(r)?;
+    let mut p = 12 + qn.len() + 1 + 4;
+    let end = r.get(p..)?.iter().position(|b| *b == b' ')?;
+    let an = r[p..p + end].to_vec();
+    p += end + 1 + 2 + 2 + 4;
+    let rdl = u16::from_be_bytes([*r.get(p)?, *r.get(p + 1)?]) as usize;
+    let rd = r.get(p + 2..p + 2 + rdl)?.to_vec();
+    Some((id, qn, an, rd))
+}
+
+fn has_delim(n: &[u8]) -> bool {
+    n.contains(&b' ')
+}
+
+/// Turn the observed run into op lines + implementation answers and evaluate the oracle.
+fn analyse(case: &Case, ob: &Observed, rep: &mut CaseReport) {
+    let n = case.clients;
+    let registered = case.registered();
+    // per client: lookups that missed and wait for their query frame / completion
+    struct Lk {
+        client: usize,
+        name: Vec<u8>,
+        pre_hit: Option<String>,
+        start_ev: usize,
+        done_ev: Option<usize>,
+        result: Option<String>,
+        port: Option<u16>,
+        id: Option<u16>,
+        /// the socket whose reply woke this lookup's completion (differs from `port` only among
+        /// concurrent lookups of one name by one client, which are interchangeable)
+        done_port: Option<u16>,
+    }
+    let mut lks: BTreeMap<usize, Lk> = BTreeMap::new(); // by plan index
+    // pass 1: notes
+    for e in &ob.events {
+        if let Ev::Note(s) = &e.ev {
+            let w: Vec<&str> = s.split_whitespace().collect();
+            if w.len() == 5 && w[0] == "L" {
+                let (c, idx): (usize, usize) = (w[2].parse().unwrap(), w[3].parse().unwrap());
+                if w[1] == "start" {
+                    lks.insert(idx, Lk { client: c, name: case.plan[idx].2.clone(), pre_hit: if w[4] == "miss" { None } else { Some(w[4].to_string()) }, start_ev: e.id, done_ev: None, result: None, port: None, id: None, done_port: None });
+                } else if let Some(l) = lks.get_mut(&idx) {
+                    l.done_ev = Some(e.id);
+                    l.result = Some(w[4].to_string());
+                }
+            }
+        }
+    }
+    // pass 2: frames.  query frames at send time, in log order, per (client, name) matched with
+    // the missed lookups of that (client, name) in start order
+    struct Q {
+        client: usize,
+        port: u16,
+        id: u16,
+        name: Vec<u8>,
+        bytes: Vec<u8>,
+        send_ev: usize,
+        at_server_ev: Option<usize>,
+        reply: Option<Vec<u8>>,
+        reply_at_client_ev: Option<usize>,
+    }
+    let mut qs: Vec<Q> = vec![];
+    let mut sent_by_client = vec![0u64; n];
+    for e in &ob.events {
+        if let Ev::Wire { to, target: Target::Ipv4, bytes, .. } = &e.ev {
+            let Some((src, sp, dst, dp, payload)) = parse_udp(bytes) else { continue };
+            if dst == SERVER_ADDR && dp == 53 {
+                let Some(c) = client_of_ip(src, n) else { continue };
+                match to {
+                    None => {
+                        let (id, name) = split_query(&payload).unwrap_or((0, vec![]));
+                        sent_by_client[c] += 1;
+                        qs.push(Q { client: c, port: sp, id, name, bytes: payload, send_ev: e.id, at_server_ev: None, reply: None, reply_at_client_ev: None });
+                    }
+                    Some(_) => {
+                        if let Some(q) = qs.iter_mut().find(|q| q.client == c && q.port == sp && q.at_server_ev.is_none()) {
+                            q.at_server_ev = Some(e.id);
+                        }
+                    }
+                }
+            } else if src == SERVER_ADDR && sp == 53 {
+                let Some(c) = client_of_ip(dst, n) else { continue };
+                if let Some(q) = qs.iter_mut().find(|q| q.client == c && q.port == dp) {
+                    match to {
+                        None => {
+                            if q.reply.is_some() {
+                                rep.fail(format!("a second reply was sent to client {} port {}", c, dp), "second reply on one connection");
+                            }
+                            q.reply = Some(payload)
+                        }
+                        Some(_) => q.reply_at_client_ev = Some(e.id),
+                    }
+                } else {
+                    rep.fail(format!("a datagram from the server reached client {} port {} which never sent a query", c, dp), "reply without a query");
+                }
+            }
+        }
+    }
+    // attribute query frames to missed lookups: k-th query frame of (client, name) <-> k-th missed
+    // lookup of (client, name) in start order (same-name lookups are interchangeable)
+    let mut order: Vec<usize> = lks.keys().cloned().collect();
+    order.sort_by_key(|i| lks[i].start_ev);
+    let mut used = vec![false; qs.len()];
+    for i in &order {
+        let l = lks.get_mut(i).unwrap();
+        if l.pre_hit.is_some() {
+            continue;
+        }
+        // the name the frame carries is the lookup's name up to the first delimiter
+        let wire_name: Vec<u8> = l.name.iter().cloned().take_while(|b| *b != b' ').collect();
+        // lowest unused port first: sockets are opened in the order the lookups start
+        if let Some(k) = (0..qs.len()).filter(|k| !used[*k] && qs[*k].client == l.client && qs[*k].name == wire_name).min_by_key(|k| qs[*k].port) {
+            used[k] = true;
+            l.port = Some(qs[k].port);
+            l.id = Some(qs[k].id);
+            l.done_port = l.port;
+        }
+    }
+    // completions of missed lookups happen in the order their replies reach the client machine:
+    // re-attribute (port, id) among same-(client, name) lookups so that each completion follows
+    // the delivery of its own reply
+    // (kept simple: lookups of one (client, name) swap ports so that done order = reply arrival order)
+    let mut groups: BTreeMap<(usize, Vec<u8>), Vec<usize>> = BTreeMap::new();
+    for i in &order {
+        let l = &lks[i];
+        if l.pre_hit.is_none() && l.port.is_some() {
+            groups.entry((l.client, l.name.clone())).or_default().push(*i);
+        }
+    }
+    for (_, g) in groups {
+        if g.len() < 2 {
+            continue;
+        }
+        let mut ports: Vec<(usize, u16, u16)> = g
+            .iter()
+            .map(|i| {
+                let p = lks[i].port.unwrap();
+                let q = qs.iter().find(|q| q.client == lks[i].client && q.port == p).unwrap();
+                (q.reply_at_client_ev.unwrap_or(usize::MAX), p, q.id)
+            })
+            .collect();
+        ports.sort();
+        let mut by_done = g.clone();
+        by_done.sort_by_key(|i| lks[i].done_ev.unwrap_or(usize::MAX));
+        for (i, (_, p, _)) in by_done.iter().zip(ports.iter()) {
+            lks.get_mut(i).unwrap().done_port = Some(*p);
+        }
+    }
+
+    // ---- op lines in observed order ----
+    #[derive(PartialEq, Eq, PartialOrd, Ord)]
+    enum Step {
+        Lookup(usize),
+        AtServer(usize),
+        Done(usize),
+    }
+    let mut steps: Vec<(usize, Step)> = vec![];
+    for (i, l) in &lks {
+        steps.push((l.start_ev, Step::Lookup(*i)));
+        if let (None, Some(d)) = (&l.pre_hit, l.done_ev) {
+            steps.push((d, Step::Done(*i)));
+        }
+    }
+    for (k, q) in qs.iter().enumerate() {
+        if let Some(ev) = q.at_server_ev {
+            // the server answers in the task the delivery wakes; position = the reply's send, if any
+            steps.push((ev, Step::AtServer(k)));
+        }
+    }
+    steps.sort();
+    let mut reordered = false;
+    let mut dropped: Vec<(usize, u16, usize)> = vec![];
+    let mut last_done_port: BTreeMap<usize, u16> = BTreeMap::new();
+    let (mut n_miss, mut n_hit) = (0, 0);
+    for (_, st) in &steps {
+        match st {
+            Step::Lookup(i) => {
+                let l = &lks[i];
+                match (&l.pre_hit, l.port) {
+                    (Some(a), _) => {
+                        n_hit += 1;
+                        // what get_host_by_name returned (the cache content seen just before the call, if it never returned)
+                        rep.line(format!("lookup {} {} -", l.client, hex(&l.name)), format!("hit {}", l.result.as_ref().unwrap_or(a)));
+                    }
+                    (None, Some(p)) => {
+                        n_miss += 1;
+                        let q = qs.iter().find(|q| q.client == l.client && q.port == p).unwrap();
+                        rep.line(format!("lookup {} {} {}", l.client, hex(&l.name), l.id.unwrap()), format!("miss {} {}", p, hex(&q.bytes)));
+                    }
+                    (None, None) => {
+                        rep.line(format!("lookup {} {} 0", l.client, hex(&l.name)), "miss-without-query");
+                        rep.fail(format!("lookup {} of client {} missed the cache but no query datagram for `{}` left the machine", i, l.client, String::from_utf8_lossy(&l.name)), "miss without a query datagram");
+                    }
+                }
+            }
+            Step::AtServer(k) => {
+                let q = &qs[*k];
+                if q.reply.is_none() && case.rogue == "none" && matches!(ob.end, RunEnd::Stuck) {
+                    // the datagram reached the server machine but nobody ever answered it
+                    let t = ob.events[q.at_server_ev.unwrap()].t_us;
+                    let same_instant_before = qs.iter().filter(|o| o.at_server_ev.map(|e| ob.events[e].t_us == t && e < q.at_server_ev.unwrap()).unwrap_or(false)).count();
+                    rep.line(format!("drop q {} {}", q.client, q.port), "dropped");
+                    rep.count("query_dropped_at_server");
+                    dropped.push((q.client, q.port, same_instant_before));
+                } else {
+                    rep.line(format!("deliver q {} {}", q.client, q.port), format!("reply {}", q.reply.as_ref().map(|r| hex(r)).unwrap_or("none".into())));
+                }
+            }
+            Step::Done(i) => {
+                let l = &lks[i];
+                let Some(p) = l.done_port else { continue };
+                let q = qs.iter().find(|q| q.client == l.client && q.port == p).unwrap();
+                if let Some(prev) = last_done_port.get(&l.client) {
+                    if *prev > p {
+                        reordered = true;
+                    }
+                }
+                last_done_port.insert(l.client, p);
+                let (rid, rq, ran) = q.reply.as_ref().and_then(|r| split_reply(r)).map(|x| (x.0.to_string(), hex(&x.1), hex(&x.2))).unwrap_or(("-".into(), "-".into(), "-".into()));
+                rep.line(format!("deliver r {} {}", l.client, p), format!("ok {} id={} q={} an={}", l.result.clone().unwrap_or("-".into()), rid, rq, ran));
+            }
+        }
+    }
+    let mut endl = vec![];
+    for c in 0..n {
+        let cache: Vec<String> = ob.caches[c].iter().filter_map(|(nm, a)| a.map(|a| format!("{}={}", hex(nm), fmt_ip(a)))).collect();
+        endl.push(format!("c{} sent={} cache={}", c, sent_by_client[c], if cache.is_empty() { "-".into() } else { cache.join(",") }));
+    }
+    rep.line("end", endl.join(" ; "));
+
+    // ---- the oracle: the property, on what was observed ----
+    let in_property = |name: &[u8]| !has_delim(name) && registered.contains_key(name) && case.rogue == "none";
+    for (i, l) in &lks {
+        let nm = String::from_utf8_lossy(&l.name).to_string();
+        if !in_property(&l.name) {
+            continue;
+        }
+        let want = fmt_ip(registered[&l.name]);
+        match &l.result {
+            None => {
+                let backlog = dropped.iter().find(|d| d.0 == l.client && Some(d.1) == l.port).map(|d| d.2);
+                match backlog {
+                    Some(k) if k >= 10 => rep.fail(
+                        format!("lookup {} (`{}`) of client {} never completed: its query reached the server machine in the same instant as {} earlier ones and was discarded (the name is registered: {})", i, nm, l.client, k, want),
+                        "lookup never completes: query discarded, more than 10 connections pending at the server",
+                    ),
+                    _ => rep.fail(
+                        format!("lookup {} (`{}`, {} bytes) of client {} never completed although the name is registered ({})", i, nm, l.name.len(), l.client, want),
+                        "lookup never completes",
+                    ),
+                }
+            }
+            Some(r) if *r != want => rep.fail(
+                format!("client {} resolved `{}` to {} but the server's record is {}", l.client, nm, r, want),
+                if BUILTIN.iter().any(|b| b.0.as_bytes() == &l.name[..]) { "wrong address (stand-in name)" } else { "wrong address" },
+            ),
+            _ => {}
+        }
+    }
+    // echo: the reply consumed on a socket carries id and name of the query sent from it
+    if case.rogue == "none" {
+        for q in &qs {
+            if let Some(r) = &q.reply {
+                match split_reply(r) {
+                    Some((id, qn, an, _)) => {
+                        if id != q.id || qn != q.name || an != q.name {
+                            rep.fail(format!("reply to client {} port {} carries id {} / names {:?} {:?}, its query had id {} / name {:?}", q.client, q.port, id, qn, an, q.id, q.name), "reply does not echo its query");
+                        }
+                    }
+                    None => rep.fail(format!("reply to client {} port {} is not a DNS message", q.client, q.port), "unparsable reply"),
+                }
+            }
+        }
+    }
+    // cache: after the first success for (client, name) nothing more is sent for it and later
+    // lookups return the same address at once
+    let mut first_ok: BTreeMap<(usize, Vec<u8>), (usize, String)> = BTreeMap::new();
+    for i in &order {
+        let l = &lks[i];
+        if let (Some(d), Some(r)) = (l.done_ev, &l.result) {
+            if r != "err" {
+                let e = first_ok.entry((l.client, l.name.clone())).or_insert((d, r.clone()));
+                if d < e.0 {
+                    *e = (d, r.clone());
+                }
+            }
+        }
+    }
+    for i in &order {
+        let l = &lks[i];
+        if let Some((d0, a0)) = first_ok.get(&(l.client, l.name.clone())) {
+            if l.start_ev > *d0 {
+                let quiet = l.done_ev == Some(l.start_ev + 1);
+                if l.result.as_deref() != Some(a0.as_str()) || !quiet {
+                    rep.fail(
+                        format!("client {} had resolved `{}` to {}, a later lookup returned {:?} and was {}answered at once from the cache", l.client, String::from_utf8_lossy(&l.name), a0, l.result, if quiet { "" } else { "NOT " }),
+                        "cache not used after success",
+                    );
+                }
+            }
+        }
+    }
+    for q in &qs {
+        // any query frame for a name the client had already resolved
+        let full: Vec<&Lk> = lks.values().filter(|l| l.client == q.client && l.port == Some(q.port)).collect();
+        let _ = &full;
+        if let Some(l) = full.first() {
+            if let Some((d0, _)) = first_ok.get(&(l.client, l.name.clone())) {
+                if q.send_ev > *d0 && l.start_ev > *d0 {
+                    rep.fail(format!("client {} sent a query for `{}` after it had resolved that name", q.client, String::from_utf8_lossy(&l.name)), "query sent after success");
+                }
+            }
+        }
+    }
+    match &ob.end {
+        RunEnd::AllDone => {}
+        RunEnd::Stuck => rep.count("end.stuck"),
+        RunEnd::Returned(s) => rep.count(format!("end.returned.{}", s)),
+    }
+    rep.count_n("lookups.hit", n_hit);
+    rep.count_n("lookups.miss", n_miss);
+    rep.count(format!("clients.{}", n));
+    rep.count(format!("arp.{}", case.arp as u8));
+    rep.count(format!("rogue.{}", case.rogue));
+    for (nm, _) in &case.records {
+        rep.count(format!("namelen.{}", match nm.len() { 0..=23 => "<24", 24 => "24", 25 => "25", 26..=40 => "26-40", _ => ">40" }));
+    }
+    if reordered {
+        rep.count("reordered_replies");
+    }
+    rep.nontrivial = n_miss >= 2 && n_hit >= 1 && (n >= 2 || reordered);
+}
+
+fn run_one_case(spec: &str) -> CaseReport {
+    let mut rep = CaseReport::default();
+    let Some(case) = Case::from_lines(spec.lines()) else {
+        rep.line("cfg", "bad-case");
+        return rep;
+    };
+    for l in case.to_lines() {
+        let head = l.split_whitespace().next().unwrap_or("").to_string();
+        rep.line(l, head);
+    }
+    let ob = run_real(&case);
+    analyse(&case, &ob, &mut rep);
+    rep
+}
+
+// ------------------------------------------------------------------------------------------
+// generator
+// ------------------------------------------------------------------------------------------
+
+fn gen_name(rng: &mut Rng, long_ok: bool) -> Vec<u8> {
+    let len = match rng.below(10) {
+        0 => 1,
+        1 => 24,
+        2 => 25,
+        3 => rng.range(26, 60),
+        4 => 60,
+        _ => rng.range(2, 23),
+    } as usize;
+    let len = if long_ok { len } else { len.min(24) };
+    if rng.chance(1, 8) {
+        // multi-byte UTF-8, still without the delimiter
+        let pool = ["é", "ß", "名", "前", "→", "😀", "a", "z", ".", "-"];
+        let mut s = String::new();
+        while s.len() < len {
+            let p = *rng.pick(&pool);
+            if s.len() + p.len() > len.max(4) {
+                break;
+            }
+            s.push_str(p);
+        }
+        if s.is_empty() {
+            s.push('x');
+        }
+        return s.into_bytes();
+    }
+    (0..len).map(|_| rng.range(0x21, 0x7e) as u8).collect()
+}
+
+fn gen(rng: &mut Rng, long_ok: bool) -> Case {
+    let kind = rng.below(100);
+    let n_rec = rng.range(1, 6) as usize;
+    let mut records: Vec<(Vec<u8>, [u8; 4])> = vec![];
+    while records.len() < n_rec {
+        let nm = gen_name(rng, long_ok);
+        if records.iter().any(|r| r.0 == nm) || BUILTIN.iter().any(|b| b.0.as_bytes() == &nm[..]) {
+            continue;
+        }
+        let b = rng.bytes(4);
+        records.push((nm, [b[0], b[1], b[2], b[3]]));
+    }
+    if rng.chance(1, 10) {
+        // the stand-in names of DnsServer::start, registered with other addresses
+        let b = rng.bytes(4);
+        records.push((BUILTIN[rng.below(2) as usize].0.as_bytes().to_vec(), [b[0], b[1], b[2], b[3]]));
+    }
+    if rng.chance(1, 10) {
+        // the same name registered twice: the later registration is the record
+        let b = rng.bytes(4);
+        let nm = records[0].0.clone();
+        records.push((nm, [b[0], b[1], b[2], b[3]]));
+    }
+    let many = kind >= 98; // many client machines, one or two lookups each, spread over time
+    let clients = if many {
+        rng.range(12, 30)
+    } else {
+        match rng.below(10) {
+            0..=2 => 1,
+            3..=7 => rng.range(2, 4),
+            _ => rng.range(5, 6),
+        }
+    } as usize;
+    let mut names: Vec<Vec<u8>> = records.iter().map(|r| r.0.clone()).collect();
+    if rng.chance(1, 4) {
+        names.push(BUILTIN[rng.below(2) as usize].0.as_bytes().to_vec());
+    }
+    let same_instant = rng.chance(1, 3);
+    let mut plan = vec![];
+    for c in 0..clients {
+        let k = if many { rng.range(1, 2) } else { rng.range(1, 8) };
+        for _ in 0..k {
+            let at = if many {
+                // at most 8 queries share an instant: below the server's listen backlog
+                1000 * (c as u64 / 8) + rng.below(2) * 700_000
+            } else if same_instant { 1000 } else { *rng.pick(&[0u64, 1000, 1000, 5000, 20_000, 100_000, 400_000, 1_500_000]) + rng.below(3) * 500 };
+            plan.push((c, at, rng.pick(&names).clone()));
+        }
+    }
+    let mut rogue = "none".to_string();
+    if kind < 6 {
+        // one lookup outside the property: an unregistered name, or a name carrying the delimiter
+        let c = rng.below(clients as u64) as usize;
+        let nm = if rng.chance(1, 2) {
+            b"no.such.name".to_vec()
+        } else {
+            // the delimiter at a character boundary of a registered name
+            let base = String::from_utf8(records[0].0.clone()).expect("generated names are UTF-8");
+            let cuts: Vec<usize> = (0..=base.len()).filter(|i| base.is_char_boundary(*i)).collect();
+            let mut v = base.into_bytes();
+            v.insert(*rng.pick(&cuts), b' ');
+            v
+        };
+        plan.push((c, *rng.pick(&[0u64, 3000, 250_000]), nm));
+    } else if kind < 10 {
+        rogue = rng.pick(&["id", "qname", "name", "addr", "short"]).to_string();
+    }
+    plan.sort_by_key(|p| p.1);
+    Case {
+        arp: rng.chance(2, 3),
+        conns: u16::MAX,
+        dseed: rng.next() % 1_000_000,
+        dmax: *rng.pick(&[0u64, 2000, 30_000, 30_000, 90_000]),
+        lat: *rng.pick(&[0u64, 1000, 1000, 10_000]),
+        rogue,
+        records,
+        clients,
+        plan,
+    }
+}
+
+/// fixed cases run before the generated ones
+fn fixed_cases() -> Vec<Case> {
+    let nm = |s: &str| s.as_bytes().to_vec();
+    vec![
+        // dns_basic's shape: one connection, the stand-in name
+        Case { arp: true, conns: 1, dseed: 1, dmax: 0, lat: 0, rogue: "none".into(), records: vec![], clients: 1, plan: vec![(0, 0, nm("testserver.com"))] },
+        // F-C20-1: a registered name of 25 bytes (query datagram of 82 bytes)
+        Case { arp: true, conns: u16::MAX, dseed: 1, dmax: 0, lat: 1000, rogue: "none".into(), records: vec![(nm("abcdefghijklmnopqrstuvwxy"), [10, 9, 8, 7])], clients: 1, plan: vec![(0, 0, nm("abcdefghijklmnopqrstuvwxy")), (0, 500_000, nm("abcdefghijklmnopqrstuvwxy"))] },
+        // F-C20-2: a stand-in name registered with another address
+        Case { arp: false, conns: u16::MAX, dseed: 1, dmax: 0, lat: 1000, rogue: "none".into(), records: vec![(nm("google.com"), [9, 9, 9, 9])], clients: 2, plan: vec![(0, 0, nm("google.com")), (1, 0, nm("google.com")), (1, 300_000, nm("google.com"))] },
+        // F-C20-3: 12 clients, one query each, all reaching the server in the same instant
+        Case { arp: false, conns: u16::MAX, dseed: 1, dmax: 0, lat: 1000, rogue: "none".into(), records: vec![(nm("burst.example"), [10, 1, 2, 3])], clients: 12, plan: (0..12).map(|c| (c, 1000, nm("burst.example"))).collect() },
+    ]
+}
+
+// ------------------------------------------------------------------------------------------
+// parent side
+// ------------------------------------------------------------------------------------------
+
+/// model-side name of a panic site (the text of the panicking source line)
+fn site_name(text: &str) -> String {
+    let t: String = text.chars().filter(|c| !c.is_whitespace()).collect();
+    let table = [
+        ("DnsMessage::from_bytes(response.iter().cloned()).unwrap()", "panic:unwrap:server_from_bytes"),
+        ("DnsMessage::from_bytes(request.iter()).unwrap()", "panic:unwrap:server_from_bytes"),
+        ("String::from_utf8(self.qname.clone()).unwrap()", "panic:unwrap:server_query_name"),
+        ("DnsServer::respond_to_query(table,socket).await.unwrap()", "panic:unwrap:server_respond_to_query"),
+        ("DnsMessage::from_bytes(resp.iter()).unwrap()", "panic:unwrap:client_from_bytes"),
+        ("String::from_utf8(res_msg.answer.name).unwrap()", "panic:unwrap:client_from_utf8"),
+        ("Ipv4Address::new([rdata[0],rdata[1],rdata[2],rdata[3]])", "panic:index:client_rdata"),
+        ("Ok(self.get_mapping(&name).unwrap())", "panic:unwrap:client_get_mapping"),
+        ("*self.local_ports.write().unwrap()+=1;", "panic:overflow:ephemeral_port"),
+    ];
+    for (k, v) in table {
+        if t.contains(k) {
+            return v.to_string();
+        }
+    }
+    format!("panic:other:{}", t)
+}
+
+fn emit_died(case: &Case, o: &CaseOutcome, out: &mut Out) {
+    for l in case.to_lines() {
+        let head = l.split_whitespace().next().unwrap_or("").to_string();
+        out.line(&l, &head);
+    }
+    let (line, ident) = died_ident(o);
+    let site = match o {
+        CaseOutcome::Died { hung: false, panic_site: Some((file, ln, _)), .. } => site_name(&source_line_text(file, *ln)),
+        _ => line.clone(),
+    };
+    out.line("expect-died", &format!("died {}", site));
+    out.count(&format!("died.{}", site));
+    // a death is a property failure when every planned lookup is inside the property
+    let registered = case.registered();
+    let outside = case.rogue != "none" || case.plan.iter().any(|p| has_delim(&p.2) || !registered.contains_key(&p.2));
+    if !outside {
+        let longest = case.plan.iter().map(|p| p.2.len()).max().unwrap_or(0);
+        let what = format!(
+            "the simulation process died ({}) although every looked-up name is registered and delimiter-free (longest name {} bytes)",
+            ident, longest
+        );
+        let id = if site == "panic:unwrap:server_from_bytes" && longest > 24 { "server dies on a registered name longer than 24 bytes".to_string() } else { ident };
+        out.fail(&what, &id);
+    }
+}
 
 pub fn run(args: &Args) {
-    eprintln!("hfull: {} not implemented yet", args.prop);
-    std::process::exit(2);
+    if is_worker(args) {
+        worker_loop(run_one_case);
+        return;
+    }
+    let mut out = Out::new(&args.out);
+    let mut cases: Vec<Case> = vec![];
+    if let Some(rp) = &args.replay {
+        let lines = read_ops(rp);
+        match Case::from_lines(lines.iter().map(|s| s.as_str())) {
+            Some(c) => cases.push(c),
+            None => {
+                eprintln!("c20: replay file holds no case");
+                std::process::exit(2);
+            }
+        }
+    } else if args.prop == "c20-ports" {
+        // one client resolving `n` distinct registered names one after the other: every miss opens
+        // a socket on a new ephemeral port (finding F-C20-4 at the 16 384th)
+        let n: usize = args.extra.get("n").and_then(|v| v.parse().ok()).unwrap_or(0);
+        if n > 0 {
+            let names: Vec<Vec<u8>> = (0..n).map(|i| format!("n{:05}", i).into_bytes()).collect();
+            cases.push(Case {
+                arp: false,
+                conns: u16::MAX,
+                dseed: 1,
+                dmax: 0,
+                lat: 100,
+                rogue: "none".into(),
+                records: names.iter().enumerate().map(|(i, nm)| (nm.clone(), [10, (i >> 16) as u8, (i >> 8) as u8, i as u8])).collect(),
+                clients: 1,
+                plan: names.iter().enumerate().map(|(i, nm)| (0, i as u64 * 1000, nm.clone())).collect(),
+            });
+        }
+    } else {
+        let long_ok = args.extra.get("long").map(|v| v != "0").unwrap_or(true);
+        cases.extend(fixed_cases());
+        let mut rng = Rng::new(args.seed);
+        for _ in 0..args.cases {
+            let mut r = rng.fork();
+            cases.push(gen(&mut r, long_ok));
+        }
+    }
+    let specs: Vec<String> = cases.iter().map(|c| c.to_lines().join("\n")).collect();
+    let outcomes = run_cases(&args.prop, &specs, default_workers(), 20, 120);
+    for (i, o) in outcomes.iter().enumerate() {
+        out.begin_case(i as u64);
+        match o {
+            CaseOutcome::Done(rep) => rep.emit(&mut out),
+            died => emit_died(&cases[i], died, &mut out),
+        }
+        out.end_case();
+    }
+    out.finish(RULE);
 }
